@@ -498,6 +498,17 @@ impl Engine {
             self.viol("C11", &format!("{}|got={:?}|a-leaf-mapping-changed-but-no-flush-token-was-returned", op, out.oc), &st.hist, Some(ai), "");
             clean = false;
         }
+        if matches!(act, Act::SetP { flags, .. } if flags != PARENT_P4_HUGE) && out.oc == Oc::Ok {
+            // holds in every state: a parent-flag setter rewrites flag bits of one entry; it never turns a leaf into a table
+            // pointer (or back), whatever flags the leaf carries
+            let kb: Vec<_> = before_s.leaves.keys().chain(before_s.tables.keys()).collect();
+            let ka: Vec<_> = after.leaves.keys().chain(after.tables.keys()).collect();
+            if kb != ka || before_s.leaves.len() != after.leaves.len() {
+                self.viol("C09", &format!("{}|turns-a-leaf-entry-into-a-table-pointer-or-back-(reduced-oracle)", op), &st.hist, Some(ai), "");
+                self.viol("C02", &format!("{}|got=Ok|turns-a-leaf-entry-into-a-table-pointer-or-back-(reduced-oracle)", op), &st.hist, Some(ai), "");
+                clean = false;
+            }
+        }
         if is_clean_op && after.leaves != before_s.leaves {
             self.viol("C10", &format!("{}|non-present-entries|entries-changed", op), &st.hist, Some(ai), "");
             clean = false;
